@@ -210,6 +210,12 @@ def run_shard(spec):
                                  {"spec": "python", "id": "g1", "execmodel": "main_thread_only", "activity": "sigint_ignored"},
                                  {"spec": "popen", "id": "g2", "execmodel": "thread", "activity": "idle"}],
                     "action": "terminate", "timeout": 0.5, "has_via": False, "pre_exit": ["g0", "g1"], "pre_exit_replace": ["g0", "g1"]}
+    if spec["shard"] == 1:
+        # the forwarder of a proxied member is stopped when terminate() begins and is killed two seconds into it
+        cases.append({"gateways": [{"spec": "popen", "id": "g0", "execmodel": "thread", "activity": "stopped"},
+                                   {"spec": "via", "id": "g1", "execmodel": "thread", "activity": "idle", "master": "g0"},
+                                   {"spec": "popen", "id": "g2", "execmodel": "thread", "activity": "sleep"}],
+                      "action": "terminate", "timeout": 1.0, "has_via": True, "pre_exit": [], "kill_during_terminate": ["g0", 2.0]})
     out: list = []
     sem = threading.Semaphore(spec["conc"])
 
